@@ -108,6 +108,14 @@ def gen_cases(tier):
                 if op == "refresh" and cfg.version != "v3":
                     continue
                 yield {"kind": "rng", "cfg": cfg.describe(), "value": v, "op": op}
+    from . import c13
+
+    for case in c13.gen_public(tier):
+        cfg = Cfg.from_desc(case["cfg"])
+        if cfg.discover and (not cfg.auth or case.get("lose_first") or "order" in case):
+            case = dict(case)
+            case["kind"] = "public-usm"
+            yield case
     for driver in ("sync", "async"):
         for cfg in [Cfg("v1"), Cfg("v2c"), Cfg("v3"), Cfg("v3", auth=2, priv=2)]:
             for allow_bulk in (True, False):
@@ -314,6 +322,17 @@ def work(chunk):
             res.count("api_calls", 1)
             res.distinct()
             res.outcome("forced-id")
+        elif case["kind"] == "public-usm":
+            # session entry with discovery through the public clients (scripts shared with C13): every request the agent
+            # receives is judged by the request oracle; what the *calls* return is C13's business
+            from . import c13
+
+            probs, n = (c13.run_shared if "order" in case else c13.run_public)(case, CLAUSES)
+            probs = [(c, t) for c, t in probs if c in CLAUSES and "[request" in t]
+            res.count("datagrams", n)
+            res.count("api_calls", len(case["script"]) + 1)
+            res.distinct()
+            res.outcome("public-usm-" + case["driver"])
         else:
             probs, n = run_public(case)
             res.count("datagrams", n)
@@ -332,6 +351,11 @@ def replay(case):
         return {"problems": probs, "datagram_sizes": r.sizes}
     if case["kind"] == "rng":
         return {"problems": run_rng(case)[0]}
+    if case["kind"] == "public-usm":
+        from . import c13
+
+        probs, n = (c13.run_shared if "order" in case else c13.run_public)(case, CLAUSES)
+        return {"problems": [(c, t) for c, t in probs if c in CLAUSES and "[request" in t]}
     return {"problems": run_public(case)[0]}
 
 
@@ -349,8 +373,8 @@ def run(tier):
         "request-ids and msgIDs are read from the wire; the RNG seam only adds forced boundary draws",
     )
     cases = list(gen_cases(tier))
-    fast_cases = [c for c in cases if c["kind"] != "public"]
-    slow_cases = [c for c in cases if c["kind"] == "public"]
+    fast_cases = [c for c in cases if not c["kind"].startswith("public")]
+    slow_cases = [c for c in cases if c["kind"].startswith("public")]
     common.run_cases(rec, work, fast_cases, chunk=400)
     common.run_cases(rec, work, slow_cases, chunk=10)
     # pool exclusivity / reset-on-acquire under all interleavings of 2-3 threads (secondary sub-check)
